@@ -15,6 +15,8 @@ Fault enumeration: for every object position of every generated model, plant
   orphan-child        a contained object whose EClass is in no EPackage
   orphan-ref          a referenced object whose EClass is in no EPackage
   orphan-root         (positions = roots) a root whose EClass is in no EPackage
+  ns-no-uri / ns-empty-prefix / ns-bad-prefix   (once per model) the EPackage of the model has no nsURI, an empty
+                      nsPrefix, an nsPrefix that is not an XML name: fails in the NAMESPACE step, after the traversal
 and for every annotation of every generated metamodel-as-model
   annotation-detail-int / annotation-detail-object   a non-string annotation detail."""
 import datetime
@@ -28,7 +30,9 @@ from harness import common
 
 PID = 'C16'
 FMT_CODE = {'xmi': 0, 'json': 1}
-INSTANCE_FAULTS = ['tostring-raises', 'tostring-nonstring', 'orphan-child', 'orphan-ref', 'orphan-root']
+INSTANCE_FAULTS = ['tostring-raises', 'tostring-nonstring', 'orphan-child', 'orphan-ref', 'orphan-root',
+                   'ns-no-uri', 'ns-empty-prefix', 'ns-bad-prefix']
+NS_FAULTS = {'ns-no-uri', 'ns-empty-prefix', 'ns-bad-prefix'}    # model-wide: planted once (position 0)
 ECORE_FAULTS = ['annotation-detail-int', 'annotation-detail-object']
 # What the implementation is expected to do with a planted fault: phase in which the
 # save raises ('build' | 'encode'), or None when the element is serialisable after all
@@ -39,6 +43,11 @@ PHASE = {
     ('xmi', 'orphan-child'): 'build', ('json', 'orphan-child'): 'build',
     ('xmi', 'orphan-ref'): 'build', ('json', 'orphan-ref'): 'build',
     ('xmi', 'orphan-root'): 'build', ('json', 'orphan-root'): 'build',
+    # the package of the model has no nsURI / an nsPrefix that is empty or not an XML name: the traversal
+    # succeeds, lxml refuses the namespace map when the root element is created (JSON does not care)
+    ('xmi', 'ns-no-uri'): 'ns', ('json', 'ns-no-uri'): None,
+    ('xmi', 'ns-empty-prefix'): 'ns', ('json', 'ns-empty-prefix'): None,
+    ('xmi', 'ns-bad-prefix'): 'ns', ('json', 'ns-bad-prefix'): None,
     ('xmi', 'annotation-detail-int'): 'build', ('json', 'annotation-detail-int'): None,
     ('xmi', 'annotation-detail-object'): 'build', ('json', 'annotation-detail-object'): None,
 }
@@ -277,6 +286,13 @@ def plant(b, spec, kind, pos):
         an = b.annots[pos]
         an.details['planted'] = 3 if kind == 'annotation-detail-int' else Opaque()
         return lambda: an.details.pop('planted')
+    if kind in NS_FAULTS:
+        pk = b.mm['pk']
+        attr, bad = {'ns-no-uri': ('nsURI', None), 'ns-empty-prefix': ('nsPrefix', ''),
+                     'ns-bad-prefix': ('nsPrefix', 'not a name')}[kind]
+        previous = getattr(pk, attr)
+        setattr(pk, attr, bad)
+        return lambda: setattr(pk, attr, previous)
     x = b.universe[pos]
     if kind == 'tostring-raises':
         x.bad = Opaque()
@@ -396,12 +412,18 @@ def do_save(b, fmt, opts, output=None, options_obj=_FRESH):
     o = save_options(fmt, opts) if options_obj is _FRESH else options_obj
     try:
         if output is not None:
-            b.res.save(output=URI(output), options=o)
+            # a URI OBJECT given by the caller is passed as it is (and stays alive in the caller)
+            b.res.save(output=URI(output) if isinstance(output, str) else output, options=o)
         else:
             b.res.save(options=o)
         return None
     except Exception as e:      # noqa: any failure of save is a failed save
         return type(e).__name__
+
+
+def _uri(path):
+    from pyecore.resources import URI
+    return URI(path)
 
 
 def read(p):
@@ -421,7 +443,8 @@ def check_success(out, model, spec, fmt, opts, stats, scratch):
     with tempfile.TemporaryDirectory(dir=scratch) as d:
         b = build(spec, d, fmt, opts['use_uuid'], opts.get('indent'))
         target = b.path if opts['target'] == 'uri' else os.path.join(d, 'elsewhere.' + fmt)
-        outp = None if opts['target'] == 'uri' else target
+        # output=: ONE URI object, kept alive and reused for every save of this case (an export target)
+        outp = None if opts['target'] == 'uri' else _uri(target)
         with open(target, 'wb') as f:
             f.write(b'PREVIOUS')
         d0, i0 = dump(b), ids_of(b)
@@ -465,7 +488,7 @@ def check_success(out, model, spec, fmt, opts, stats, scratch):
                      f'{_firstdiff(bytes1, bytes2 if bytes1 != bytes2 else bytes3)}', case)
         # correspondence: no fault -> Done, the target holds exactly the document
         got = [0] + _content_tokens(bytes1)
-        want = model.ask('savefs', _tokens(fmt, -1, len(b.positions), b'PREVIOUS', bytes3))
+        want = model.ask('savefs', _tokens(fmt, -1, len(b.positions), b'PREVIOUS', bytes3, opts['target'] == 'uri'))
         stats['model_calls'] += 1
         if got != want:
             out.diff(f'savefs model vs impl on a fault-free {fmt} save: model {want[:8]}.. impl {got[:8]}..', case)
@@ -482,11 +505,23 @@ def _content_tokens(c):
     return [0, 0] if c is None else [1, len(c)] + list(c)
 
 
-def _tokens(fmt, fault, npos, old, new):
-    # XMI: lxml serialises an accepted tree without raising (premise j_nenc = 0 of C16_failsafe)
-    return ([FMT_CODE[fmt], fault, npos, npos if fmt == 'json' else 0, 0 if old is None else 1, len(old or b'')]
-            + list(old or b'')
+def _tokens(fmt, fault, npos, old, new, own=True):
+    """fmt ; fault ; nbuild ; nenc ; nns ; own ; has_old ; |old| ; old.. ; |new| ; new..
+    XMI: lxml serialises an accepted tree without raising (premise j_nenc = 0 of C16_failsafe); one
+    position for the namespace step"""
+    return ([FMT_CODE[fmt], fault, npos, npos if fmt == 'json' else 0, 1, 1 if own else 0,
+             0 if old is None else 1, len(old or b'')] + list(old or b'')
             + [len(new or b'')] + list(new or b''))
+
+
+def _fault_number(fmt, phase, pos, npos):
+    if phase is None:
+        return -1
+    if phase == 'build':
+        return pos
+    if phase == 'encode':
+        return npos + pos
+    return npos + (npos if fmt == 'json' else 0)       # 'ns': the single namespace position
 
 
 def _h(x):
@@ -502,7 +537,8 @@ def check_fault(out, model, spec, fmt, opts, kind, pos, old, stats, scratch):
         npos = len(b.positions)
         plant(b, spec, kind, b.positions[pos] if spec['kind'] == 'instance' else pos)
         target = b.path if opts['target'] == 'uri' else os.path.join(d, 'elsewhere.' + fmt)
-        outp = None if opts['target'] == 'uri' else target
+        # output=: ONE URI object, kept alive and reused for every save of this case (an export target)
+        outp = None if opts['target'] == 'uri' else _uri(target)
         if old is not None:
             with open(target, 'wb') as f:
                 f.write(old)
@@ -533,8 +569,8 @@ def check_fault(out, model, spec, fmt, opts, kind, pos, old, stats, scratch):
             new = read(other)
             stats['saves'] += 1
         # correspondence with the order-of-effects model
-        fault = -1 if phase is None else (pos if phase == 'build' else npos + pos)
-        want = model.ask('savefs', _tokens(fmt, fault, npos, old, new))
+        fault = _fault_number(fmt, phase, pos, npos)
+        want = model.ask('savefs', _tokens(fmt, fault, npos, old, new, opts['target'] == 'uri'))
         got = [1 if exc else 0] + _content_tokens(after)
         stats['model_calls'] += 1
         if got != want:
@@ -574,7 +610,7 @@ def check_histories(out, spec, fmt, opts, rng, stats, scratch):
         npos, roots = len(b0.positions), [b0.positions.index(r) for r in b0.root_positions]
     kinds = INSTANCE_FAULTS if spec['kind'] == 'instance' else ECORE_FAULTS
     for kind in kinds:
-        cands = roots if kind == 'orphan-root' else list(range(npos))
+        cands = roots if kind == 'orphan-root' else [0] if kind in NS_FAULTS else list(range(npos))
         if not cands or PHASE[(fmt, kind)] is None:
             continue
         pos = rng.choice(cands)
@@ -667,8 +703,9 @@ def check_histories(out, spec, fmt, opts, rng, stats, scratch):
     with tempfile.TemporaryDirectory(dir=scratch) as d:
         b = build(spec, d, fmt, own_uu, opts.get('indent'))
         other = os.path.join(d, 'elsewhere.' + fmt)
-        e0 = do_save(b, fmt, opts, other)
-        bo = read(other)
+        export = _uri(other)                # one URI object kept by the caller and used twice
+        e0 = do_save(b, fmt, opts, export) or do_save(b, fmt, opts, export)
+        bo = read(other)                    # read while the URI object is still alive
         e1 = do_save(b, fmt, opts)
         b1 = read(b.path)
         e2 = do_save(b, fmt, opts)
@@ -745,6 +782,8 @@ def run(ctx, out):
                 for kind in kinds:
                     if kind == 'orphan-root' and pos not in roots:
                         continue
+                    if kind in NS_FAULTS and pos != 0:
+                        continue
                     optsl = grid if thorough else [grid[(k + si) % len(grid)]]
                     k += 1
                     for opts in optsl:
@@ -818,7 +857,8 @@ def replay(ctx, rep):
     with tempfile.TemporaryDirectory(dir=scratch) as d:
         b = build(spec, d, fmt, opts['use_uuid'], opts.get('indent'))
         target = b.path if opts['target'] == 'uri' else os.path.join(d, 'elsewhere.' + fmt)
-        outp = None if opts['target'] == 'uri' else target
+        # output=: ONE URI object, kept alive and reused for every save of this case (an export target)
+        outp = None if opts['target'] == 'uri' else _uri(target)
         fault = case.get('fault')
         if fault:
             plant(b, spec, fault['kind'], b.positions[fault['position']] if spec['kind'] == 'instance'
